@@ -66,11 +66,11 @@ func (e *Engine) execCall(fc *fnCtx, b *ssa.BasicBlock, st *State, c *ssa.CallCo
 		return e.freshVal("dyn", resT)
 	}
 	if ct, ok := e.w.Contracts[callee]; ok {
-		return e.applyContract(fc, st, ct, args, pos, funcDisplayName(callee))
+		return e.applyContract(fc, st, ct, args, pos, funcDisplayName(callee), callee.Signature)
 	}
 	if o := callee.Origin(); o != nil {
 		if ct, ok := e.w.Contracts[o]; ok {
-			return e.applyContract(fc, st, ct, args, pos, funcDisplayName(callee))
+			return e.applyContract(fc, st, ct, args, pos, funcDisplayName(callee), callee.Signature)
 		}
 	}
 	name := callee.String()
@@ -426,7 +426,12 @@ func (env *SpecEnv) bindResults(sig *types.Signature, results []Val) {
 	}
 }
 
-func (e *Engine) applyContract(fc *fnCtx, st *State, c *Contract, args []Val, pos token.Pos, calleeName string) Val {
+func (e *Engine) applyContract(fc *fnCtx, st *State, c *Contract, args []Val, pos token.Pos, calleeName string, actual ...*types.Signature) Val {
+	if len(actual) > 0 && actual[0] != nil && c.Sig != actual[0] {
+		cc := *c
+		cc.Sig = actual[0]
+		c = &cc
+	}
 	pre := st.clone()
 	env := e.contractEnv(c, args, pre, pre)
 	for i, rq := range c.Requires {
@@ -460,6 +465,9 @@ func (e *Engine) applyContract(fc *fnCtx, st *State, c *Contract, args []Val, po
 		na := e.sc.declareConst("alloc", "Int")
 		e.sc.assert("(>= " + na + " " + old + ")")
 		st.Heaps[allocHeap] = na
+	}
+	for i, r := range results {
+		e.loadFacts(st, r, sig.Results().At(i).Type())
 	}
 	post := e.contractEnv(c, args, st, pre)
 	post.bindResults(sig, results)
